@@ -84,6 +84,17 @@ class RecConn(AsyncFIXConnection):
 
     async def should_replay(self, m):
         self.EV.append("should_replay")
+        f = getattr(self, "faults", None) or {}
+        if f.get("send_at_should_replay") is not None and not getattr(self, "_other_sent", False):
+            # what another task of the application does while the reader task is suspended in this hook:
+            # it sends a new message through the same connection
+            self._other_sent = True
+            other = FIXMessage(FMsg.NEWS, {148: "headline from another task"})
+            try:
+                await self.send_msg(other)
+                self.other_result = "sent"
+            except BaseException as e:  # noqa
+                self.other_result = "raise:" + type(e).__name__
         if self.replay_filter is None:
             return True
         return self.replay_filter(m)
@@ -272,6 +283,7 @@ def run(case):
         out["exc_mro"] = [k.__name__ for k in type(e).__mro__]
     out["post"] = post_view(c)
     out["post"]["resumed_at"] = c.resumed_at
+    out["post"]["other_task"] = getattr(c, "other_result", None)
     if case.get("rows") is not None:
         rb = {}
         for k, b in case["pre"].get("out_bytes", {}).items():
